@@ -332,7 +332,7 @@ func h3GenReq(r *KRng, tier string, maxBody, n, nb int, smallHdr bool) H3Req {
 	if r.P(0.15) {
 		q.Host = []string{"example.test", "example.test:8443", "[::1]:443", "xn--caf-dma.test"}[r.N(4)]
 	}
-	q.Hdr = h3GenHdr(r, r.Pick(0, 1, 2, 3, 6), "", smallHdr)
+	q.Hdr = h3GenHdr(r, r.Pick(0, 1, 2, 3, 6, 14), "", smallHdr)
 	q.RawKeys = r.P(0.3)
 	if r.P(0.25) { // cookie crumbs
 		for i, k := 0, 1+r.N(3); i < k; i++ {
@@ -412,7 +412,7 @@ func h3GenReq(r *KRng, tier string, maxBody, n, nb int, smallHdr bool) H3Req {
 		}
 		h.DropEarly = r.P(0.5)
 	}
-	h.Hdr = h3GenHdr(r, r.Pick(0, 1, 2, 4), "R-", smallHdr)
+	h.Hdr = h3GenHdr(r, r.Pick(0, 1, 2, 4, 9, 15), "R-", smallHdr)
 	h.RawKeys = r.P(0.3)
 	if r.P(0.2) {
 		for i, k := 0, 1+r.N(3); i < k; i++ {
@@ -472,11 +472,10 @@ func h3GenReq(r *KRng, tier string, maxBody, n, nb int, smallHdr bool) H3Req {
 	return q
 }
 
-// h3MaxKeys: a Go map that ever holds 8 entries and is then assigned to (even an update of an existing key), or holds
-// more than 8, is converted into a hash table whose iteration order depends on the process's random hash key, not only
-// on the seeded iteration offset; http3 writes header fields in map order. With more distinct names than this in one
-// header map the bytes on the wire would differ from process to process (replays would not be bit-for-bit).
-const h3MaxKeys = 7
+// h3MaxKeys bounds the number of distinct field names in one header map. (Maps with 8 or more entries iterate in hash
+// order, and http3 writes header fields in map order; the simulation build pins the runtime's hash keys, so this is
+// replayable - selftest-det covers header maps of 8-20 names.)
+const h3MaxKeys = 20
 
 func h3TrimKeys(kvs []H3KV, budget int) []H3KV {
 	seen := map[string]bool{}
@@ -517,10 +516,10 @@ func h3CapKeys(q *H3Req) {
 	if h.BadTrl {
 		fixed++
 	}
-	h.UTrl = h3TrimKeys(h.UTrl, 1)
+	h.UTrl = h3TrimKeys(h.UTrl, 3)
 	fixed += h3Distinct(h.UTrl)
 	if len(h.Trl) > 0 {
-		h.Trl = h3TrimKeys(h.Trl, max(1, min(2, h3MaxKeys-fixed-2)))
+		h.Trl = h3TrimKeys(h.Trl, max(1, min(4, h3MaxKeys-fixed-2)))
 		fixed += 1 + h3Distinct(h.Trl)
 	}
 	h.Hdr = h3TrimKeys(h.Hdr, max(0, h3MaxKeys-fixed))
@@ -1192,8 +1191,8 @@ func (x *h3Run) serveHTTP(w http.ResponseWriter, r *http.Request) {
 		}
 		x.res.Logf("%s: header map order at handler end: %q", what, ks)
 	}
-	if len(hd) > h3MaxKeys {
-		x.res.Probe("h:header-map-above-7-keys")
+	if len(hd) > 8 {
+		x.res.Probe("h:header-map-above-8-keys")
 		x.res.Logf("%s: %d keys in the response header map", what, len(hd))
 	}
 	so.done = true
